@@ -1616,6 +1616,10 @@ class LogicalOperator(BinaryOperator, ABC):
     """
 
     right_cache: IndexedCache = field(default_factory=IndexedCache, init=False)
+    _answers_from_cache_: ClassVar[bool] = True
+    """
+    Whether this operator may answer from its result caches instead of evaluating its operands.
+    """
 
     def __post_init__(self):
         super().__post_init__()
@@ -1730,7 +1734,7 @@ class Union(OR):
         sources = sources or {}
         self._yield_when_false_ = yield_when_false
 
-        if is_caching_enabled() and self._cache_.check(sources):
+        if self._answers_from_cache_ and is_caching_enabled() and self._cache_.check(sources):
             yield from self.yield_final_output_from_cache(sources)
             return
 
@@ -1803,7 +1807,7 @@ class ElseIf(OR):
                 any_left = True
                 left_value.update(sources)
                 if self.left._is_false_:
-                    if is_caching_enabled() and self.right_cache.check(left_value):
+                    if self._answers_from_cache_ and is_caching_enabled() and self.right_cache.check(left_value):
                         yield from self.yield_final_output_from_cache(left_value, self.right_cache)
                         continue
                     right_prev = self.right._eval_parent_
